@@ -1027,9 +1027,14 @@ class Device(device.Device):
             if commirq & 0b00100000:
                 self.chipset.write_register("CIU_CommIRq", 0b00100000)
                 fifo_size = self.chipset.read_register("CIU_FIFOLevel")
+                if not 0 < fifo_size <= 64:
+                    raise nfc.clf.TransmissionError("fifo level error")
                 fifo_read = fifo_size * ["CIU_FIFOData"]
-                fifo_data = bytearray(self.chipset.read_register(*fifo_read))
-                if fifo_data[0] != len(fifo_data):
+                fifo_data = self.chipset.read_register(*fifo_read)
+                if isinstance(fifo_data, int):  # single register
+                    fifo_data = [fifo_data]
+                fifo_data = bytearray(fifo_data)
+                if not fifo_data or fifo_data[0] != len(fifo_data):
                     raise nfc.clf.TransmissionError("frame length byte error")
                 return fifo_data
         if timeout > 0:
